@@ -5,6 +5,7 @@ package idxin
 import (
 	"bytes"
 	"encoding/binary"
+	"encoding/xml"
 )
 
 type header struct {
@@ -21,4 +22,35 @@ func Parse(blob []byte, table []int32) int32 {
 		return table[h.Next]
 	}
 	return 0
+}
+
+type file struct {
+	Name  string  `xml:",attr"`
+	Block []block `xml:"Block"`
+}
+
+type block struct {
+	Size uint64 `xml:",attr"`
+}
+
+type blockMap struct {
+	File []file
+}
+
+// Copy is the positive control of R11k: sizes are copied block by block from a decoded map into
+// one that was computed, without comparing how many blocks each has.
+func Copy(blob []byte, mine *blockMap) error {
+	var orig blockMap
+	if err := xml.Unmarshal(blob, &orig); err != nil {
+		return err
+	}
+	for i, f := range orig.File {
+		if i >= len(mine.File) {
+			break
+		}
+		for j, b := range f.Block {
+			mine.File[i].Block[j].Size = b.Size
+		}
+	}
+	return nil
 }
